@@ -63,6 +63,20 @@ CHECKS.update({
             SYMNOTE + "sigma > 0.", "DESIGN.md §4 C14"),
 })
 
+CHECKS.update({
+    "C15": (True, "symbolic evaluation with an opaque loop-variant direction; homogeneity-degree and symbolic "
+                  "translation-weight typing; normal-form comparison of the projected vectors; loop-summary rules",
+            CLAUSE + "Proves SW-DEG (linear scaling) and SW-SHIFT (diagonal translation invariance incl. negative "
+            "coordinates) for every input in exact arithmetic; decides SW-PROJ, SW-AUG, SW-AVG. Declines: <=2*W1, triangle "
+            "inequality, diagonal-point insensitivity, quadrature error in M.",
+            SYMNOTE + "float32 rounding of the direction vector ignored within 1e-6.", "DESIGN.md §4 C15"),
+    "C16": (True, "symbolic evaluation to the entropy normal form under every flag configuration; degree/weight/"
+                  "row-symmetry facets; path-condition (guard) equivalence",
+            CLAUSE + "Decides PE-FORM, PE-GUARD, PE-INF, PE-LIST and proves PE-INV (scale, translation and order invariance "
+            "for every barcode, keep_inf=False). Declines: the numeric bounds 0<=E<=log n.",
+            SYMNOTE, "DESIGN.md §4 C16"),
+})
+
 NOT_APPLICABLE = {
     "C05": "soundness of the mGH lower/upper bounds is a theorem about computed values for every graph pair and RNG "
            "draw; no ownership, ordering, wiring or algebraic-type argument implies it (DESIGN.md §6); nearby "
